@@ -22,7 +22,8 @@
 (*   pairs     two requests declared disjoint (every third with a free rider request, every fifth with the    *)
 (*             group stated twice, every fourth with one member all-LOOSE and the other all-STRICT, in both   *)
 (*             orders of the vector); triples: one group of three; overlaps: two groups sharing one request,  *)
-(*             the shared request first / last / in between in the vectors, or one group nested in the other; *)
+(*             the shared request first / last / in between in the vectors, one group nested in the other, or *)
+(*             a triangle of pairs {1,2} {1,3} {2,3};                                                         *)
 (*             every other seeded group request gets LOOSE hops naming elements that do not exist (0..2)      *)
 (* With GroupsExhaustive the pairs are ALL pairs of requests with include lists of <= 1 ROADM (used with      *)
 (* NSites = 3); otherwise groups are seeded draws (a small linear congruential generator written in TLA+).    *)
@@ -35,6 +36,7 @@ CONSTANTS NSites,            \* number of ROADM sites
           LinePer, TwinPer, PairPer, TriplePer, OverlapPer,   \* seeded draws per mesh
           GroupsExhaustive,  \* TRUE: all pairs of requests with <= 1 ROADM include each
           Doubling,          \* TRUE: (not UseSample) also the meshes with one doubled pair of sites
+          PairsFirstAll,     \* FALSE: exhaustive pairs without the first requests whose include is their own end point
           Salt               \* seed of the draws
 
 Nodes  == 1..NSites
@@ -86,8 +88,8 @@ Singles(G) == UNION {UNION {{Batch(<<Rq(sd[1], sd[2], inc, lab)>>, <<>>) :
 
 \* ---- seeded requests: shape 0/1 none, 2 one ROADM, 3 one line element, 4 two ROADMs, 5 ROADM then line,
 \*      6 line then ROADM, 7 two line elements, 8 the lines of a three-hop walk leaving the source (an explicit
-\*      route when it ends at the destination, possibly through a site twice); labels drawn per hop; include
-\*      lists never repeat an element
+\*      route when it ends at the destination, possibly through a site twice), 9 a fork (below); labels drawn per
+\*      hop; include lists never repeat an element
 OutArcs(G, a) == SelectSeq(ArcSeq(G), LAMBDA e : e[1] = a)
 Walk3(G, s, x1, x2, x3) ==
   LET o1 == OutArcs(G, s)
@@ -99,12 +101,26 @@ Walk3(G, s, x1, x2, x3) ==
                a3 == o3[(x3 % Len(o3)) + 1]
            IN  IF a3 = a1 \/ a2 = a1 THEN <<LineEl(a1), LineEl(a2)>>
                ELSE <<LineEl(a1), LineEl(a2), LineEl(a3)>>
+\* shape 9: lines that look like a chain but are not one - the second arc ENTERS the ROADM the first one enters
+\* (from another site) instead of leaving it; optionally a third arc that leaves that ROADM
+InArcs(G, a) == SelectSeq(ArcSeq(G), LAMBDA e : e[2] = a)
+Fork(G, s, x1, x2, x3) ==
+  LET o1 == OutArcs(G, s)
+  IN  IF Len(o1) = 0 THEN <<>>
+      ELSE LET a1 == o1[(x1 % Len(o1)) + 1]
+               i2 == SelectSeq(InArcs(G, a1[2]), LAMBDA e : e[1] # s)
+               o3 == OutArcs(G, a1[2])
+           IN  IF Len(i2) = 0 THEN <<LineEl(a1)>>
+               ELSE LET a2 == i2[(x2 % Len(i2)) + 1]
+                        a3 == o3[((x3 \div 2) % Len(o3)) + 1]
+                    IN  IF x3 % 2 = 0 \/ a3 = Opposite(a1) \/ a3 = Opposite(a2) THEN <<LineEl(a1), LineEl(a2)>>
+                        ELSE <<LineEl(a1), LineEl(a2), LineEl(a3)>>
 RndInc(G, sd, shape, x1, x2, x3) ==
   LET arcs == ArcSeq(G)
       L(x) == LineEl(arcs[(x % Len(arcs)) + 1])
       n1   == (x1 % NSites) + 1
       n2   == ((n1 + (x2 % (NSites - 1))) % NSites) + 1
-      sh   == IF Len(arcs) = 0 /\ shape \in {3, 5, 6, 7, 8} THEN 2 ELSE shape
+      sh   == IF Len(arcs) = 0 /\ shape \in {3, 5, 6, 7, 8, 9} THEN 2 ELSE shape
   IN  CASE sh \in {0, 1} -> <<>>
         [] sh = 2 -> <<n1>>
         [] sh = 3 -> <<L(x1)>>
@@ -113,16 +129,21 @@ RndInc(G, sd, shape, x1, x2, x3) ==
         [] sh = 6 -> <<L(x1), n1>>
         [] sh = 7 -> IF L(x1) = L(x2) THEN <<L(x1)>> ELSE <<L(x1), L(x2)>>
         [] sh = 8 -> Walk3(G, sd[1], x1, x2, x3)
+        [] sh = 9 -> Fork(G, sd[1], x1, x2, x3)
+\* (a walk or a fork is aimed at the site it ends in, every other time, so that it is an explicit route)
 RndReq(G, seed, shapes) ==
   LET sd  == OrdPairs[(Rnd(seed, 1) % Len(OrdPairs)) + 1]
-      inc == RndInc(G, sd, shapes[(Rnd(seed, 2) % Len(shapes)) + 1], Rnd(seed, 3), Rnd(seed, 4), Rnd(seed, 8))
-  IN  Rq(sd[1], sd[2], inc, [k \in 1..Len(inc) |-> Rnd(seed, 4 + k) % 2])
+      sh  == shapes[(Rnd(seed, 2) % Len(shapes)) + 1]
+      inc == RndInc(G, sd, sh, Rnd(seed, 3), Rnd(seed, 4), Rnd(seed, 8))
+      end == IF inc = <<>> THEN sd[2] ELSE inc[Len(inc)] % 1000
+      d   == IF sh \in {8, 9} /\ inc # <<>> /\ end # sd[1] /\ Rnd(seed, 10) % 4 # 0 THEN end ELSE sd[2]
+  IN  Rq(sd[1], d, inc, [k \in 1..Len(inc) |-> Rnd(seed, 4 + k) % 2])
 \* second request of a group: half of the time the same end points as the first (protection pair)
 RndMate(G, r, seed, shapes) ==
   LET q == RndReq(G, seed, shapes)
   IN  IF Rnd(seed, 7) % 2 = 0 THEN Rq(r.s, r.d, q.inc, q.strict) ELSE q
 
-LineShapes  == <<3, 3, 5, 6, 7, 8>>
+LineShapes  == <<3, 3, 5, 6, 7, 8, 9, 9>>
 GroupShapes == <<0, 1, 2, 2, 3, 4, 5, 6>>
 Relabel(r, l) == Rq(r.s, r.d, r.inc, [k \in 1..Len(r.inc) |-> l])
 IncShapes == <<2, 3, 4, 5, 6>>          \* never empty
@@ -159,18 +180,22 @@ Overlaps(G) == {LET r1 == RndReq(G, Seed(G.id, k, 9), GroupShapes)
                     r2 == RndMate(G, r1, Seed(G.id, k, 10), GroupShapes)
                     r3 == RndMate(G, r1, Seed(G.id, k, 11), GroupShapes)
                 IN  Batch(<<r1, r2, Haunt(r3, Seed(G.id, k, 11), k)>>,
-                          CASE k % 6 = 0 -> <<<<1, 2>>, <<2, 3>>>>      \* shared: last, then first
-                            [] k % 6 = 1 -> <<<<1, 2>>, <<1, 3>>>>      \* shared: first in both
-                            [] k % 6 = 2 -> <<<<2, 1>>, <<3, 1>>>>      \* shared: last in both
-                            [] k % 6 = 3 -> <<<<1, 3>>, <<2, 1>>>>
-                            [] k % 6 = 4 -> <<<<1, 2, 3>>, <<2, 3>>>>   \* nested: the larger first
-                            [] OTHER     -> <<<<1, 2>>, <<3, 1, 2>>>>) : k \in 1..OverlapPer}
+                          CASE k % 8 = 0 -> <<<<1, 2>>, <<2, 3>>>>      \* shared: last, then first
+                            [] k % 8 = 1 -> <<<<1, 2>>, <<1, 3>>>>      \* shared: first in both
+                            [] k % 8 = 2 -> <<<<2, 1>>, <<3, 1>>>>      \* shared: last in both
+                            [] k % 8 = 3 -> <<<<1, 3>>, <<2, 1>>>>
+                            [] k % 8 = 4 -> <<<<1, 2, 3>>, <<2, 3>>>>   \* nested: the larger first
+                            [] k % 8 = 5 -> <<<<1, 2>>, <<3, 1, 2>>>>
+                            [] k % 8 = 6 -> <<<<1, 2>>, <<1, 3>>, <<2, 3>>>>   \* triangle of pairs: the last vector only
+                            [] OTHER     -> <<<<2, 3>>, <<1, 2>>, <<3, 1>>>>)  \* holds requests the others routed
+                 : k \in 1..OverlapPer}
 
 \* ---- exhaustive pairs (small NSites): all end points, include lists of <= 1 ROADM, both labels
 SmallReqs == UNION {{Rq(sd[1], sd[2], <<>>, <<>>)} \cup {Rq(sd[1], sd[2], <<n>>, <<l>>) : n \in Nodes, l \in {0, 1}} :
                     sd \in {x \in Nodes \X Nodes : x[1] # x[2]}}
 \* (the first request runs from site 1 to site 2: every other choice is a relabelling of the sites)
-AllPairs(G) == {Batch(<<r1, r2>>, <<<<1, 2>>>>) : r1 \in {r \in SmallReqs : r.s = 1 /\ r.d = 2}, r2 \in SmallReqs}
+AllPairs(G) == {Batch(<<r1, r2>>, <<<<1, 2>>>>) : r1 \in {r \in SmallReqs : r.s = 1 /\ r.d = 2 /\ (PairsFirstAll \/ r.inc \notin {<<1>>, <<2>>})},
+                                                    r2 \in SmallReqs}
 
 MCBatchesOf(G) == Singles(G) \cup Lines(G) \cup Twins(G) \cup Triples(G) \cup Overlaps(G)
                   \cup (IF GroupsExhaustive THEN AllPairs(G) ELSE Pairs(G))
@@ -214,7 +239,11 @@ Info ==
    best    |-> [i \in Idx |-> fx[i].min],
    strong  |-> IF batch.groups = <<>> THEN 0 ELSE IF Solutions(g, CleanBatch(batch), fx, "strong", TRUE) # {} THEN 1 ELSE 0,
    weak    |-> IF batch.groups = <<>> THEN 0 ELSE IF Solutions(g, CleanBatch(batch), fx, "weak", FALSE) # {} THEN 1 ELSE 0]
+\* the diversity a synchronisation vector asks for in the service file: every kind that implies link diversity
+\* (see Routing.tla) - the batch is the same, the answer must be the same
+DivKinds == <<"node link", "link", "node">>
+Div == [k \in 1..Len(batch.groups) |-> DivKinds[((g.id + Len(batch.reqs) + batch.reqs[1].s + 2 * k) % 3) + 1]]
 Emit == phase # "request" \/
         PrintT("@@" \o ToJson([mesh |-> g.id, n |-> g.n, links |-> {<<a[1], a[2], g.len[a], a[3]>> : a \in g.arcs},
-                               batch |-> batch, info |-> Info]))
+                               batch |-> batch, div |-> Div, info |-> Info]))
 ==============================================================================
